@@ -111,6 +111,15 @@ def run(res):
         (" .dw fwd\nnop\nfwd: nop\n", ("OK", "020000000000"), "label-forward"),
         ("a: nop\nA: nop\n", ("ERR",), "duplicate-label-case"),
         (".equ k = 3\n .dw K, k\n", ("OK", "03000300"), "equ-case"),
+        (".macro setit\n.set lvl = @0\n.endm\n .dw lvl\n setit 5\n", ("ERR",), "set-in-macro-used-before"),
+        (".macro setit\n.set lvl = @0\n.endm\n setit 5\n .dw lvl\n setit 7\n .dw lvl\n", ("OK", "05000700"), "set-in-macro"),
+        (".macro setit\n.set lvl = @0\n.endm\n ldi r16, lvl\n setit 5\n", ("ERR",), "set-in-macro-used-before"),
+        (".macro mk\n.equ made = @0\n.endm\n mk 9\n .dw made\n", ("OK", "0900"), "equ-in-macro"),
+        (".macro mk\nlbl_@0: nop\n.endm\n mk 1\n mk 2\n .dw lbl_1, lbl_2\n", ("OK", "0000000000000100"), "label-in-macro"),
+        (".macro mk\ndup: nop\n.endm\n mk\n mk\n", ("ERR",), "duplicate-label-through-macro"),
+        (".macro al\n.def mt = r20\n.endm\n al\n mov mt, r1\n", ("OK", "412d"), "def-in-macro"),
+        (".macro al\n.def mt = r20\n.endm\n mov mt, r1\n al\n", ("ERR",), "def-in-macro-used-before"),
+        ("lvl: nop\n.macro setit\n.set lvl = 1\n.endm\n setit\n", ("ERR",), "set-in-macro-clashes-with-label"),
         ("a: nop\n.dseg\na: .byte 1\n", ("ERR",), "duplicate-label-cseg-dseg"),
         (".dseg\nv: .byte 1\n.eseg\nV: .db 1\n", ("ERR",), "duplicate-label-dseg-eseg"),
         (".eseg\ne: .db 1\n.cseg\ne: nop\n", ("ERR",), "duplicate-label-eseg-cseg"),
